@@ -29,7 +29,6 @@ import (
 	"github.com/btcsuite/btcd/wire"
 	"github.com/btcsuite/btcwallet/chain"
 	"github.com/btcsuite/btcwallet/waddrmgr"
-	"github.com/btcsuite/btcwallet/wallet"
 	"github.com/btcsuite/btcwallet/walletdb"
 	"github.com/btcsuite/btcwallet/wtxmgr"
 
@@ -67,6 +66,9 @@ type evoSpec struct {
 	Depth  int         `json:"depth"`
 	Blocks []blockSpec `json:"blocks,omitempty"`
 	Bulk   int         `json:"bulk,omitempty"` // that many further empty blocks
+	// Shorter (offline evolutions, hand-written replays only; never
+	// generated): allow the new branch to be shorter than the replaced one.
+	Shorter bool `json:"shorter,omitempty"`
 }
 
 // opSpec.Op: "evolve" (online: notifications are delivered), "unmined"
@@ -427,7 +429,9 @@ func (r *runner) violate(kind, site, detail string) {
 	}
 	if len(r.oracle) == 0 {
 		r.site = site
-		r.detail = detail
+		r.detail = kind + ": " + detail
+	} else {
+		r.detail += "; " + kind + ": " + detail
 	}
 	r.oracle = append(r.oracle, kind)
 }
@@ -753,7 +757,7 @@ func (r *runner) offline(evos []evoSpec) error {
 			depth = max
 		}
 		// a valid best chain does not get shorter
-		if n := len(e.Blocks) + e.Bulk; n < depth {
+		if n := len(e.Blocks) + e.Bulk; n < depth && !e.Shorter {
 			depth = n
 		}
 		if depth > 0 {
@@ -1107,5 +1111,3 @@ func main() {
 		return nil
 	})
 }
-
-var _ = wallet.ErrWalletShuttingDown
